@@ -54,7 +54,7 @@ Section SetReq.
   (* deletePaths body *)
   Definition delete_step (pre : gp) (t : tree) (p : gp) : tree * step_out :=
     match join_paths pre p with
-    | Ok jp => let '(t', r) := delete_node_st env ko (so_shadow o) sch t (elems jp) in (t', of_res r)
+    | Ok jp => let '(t', r) := delete_node_st env fo ko (so_shadow o) sch t (elems jp) in (t', of_res r)
     | _ => (t, StJoinErr)
     end.
 
@@ -69,7 +69,7 @@ Section SetReq.
   Definition replace_step (pre : gp) (t : tree) (u : gp * tval) : tree * step_out :=
     match join_paths pre (fst u) with
     | Ok jp =>
-        let '(t1, r1) := delete_node_st env ko (so_shadow o) sch t (elems jp) in
+        let '(t1, r1) := delete_node_st env fo ko (so_shadow o) sch t (elems jp) in
         match r1 with
         | Ok _ => let '(t2, r2) := set_node_st env fo ko sn_opts (snd u) sch t1 (elems jp) in (t2, of_res r2)
         | _ => (t1, of_res r1)
